@@ -70,11 +70,20 @@ Definition clean_attr (c : cfg hstate) : Prop := attr_name c = [] /\ attr_value 
 Definition raw_tag (c : cfg hstate) (cf : wconf) : Prop :=
   wtmp cf = temp_buf c /\ wtag_ cf = Some (mkwtag true (tag_name c) false []) /\ tag_kind c = TEndTag /\ tag_self c = false /\
   tag_attrs c = [] /\ tag_dup c = false.
+Definition is_end (tk : tagkind) : bool := match tk with TEndTag => true | _ => false end.
+(* a tag under construction, no attribute yet *)
+Definition tag0 (c : cfg hstate) (cf : wconf) : Prop :=
+  wtag_ cf = Some (mkwtag (is_end (tag_kind c)) (tag_name c) (tag_self c) []) /\ tag_attrs c = [] /\ tag_dup c = false /\
+  (tag_kind c = TStartTag \/ tag_kind c = TEndTag).
 Definition SR (c : cfg hstate) (cf : wconf) : Prop :=
   wlast cf = last_start c /\ clean_attr c /\
   match st c with
   | HData => wst cf = WData
   | HPlaintext => wst cf = WPlaintext
+  | HTagOpen => wst cf = WTagOpen
+  | HEndTagOpen => wst cf = WEndTagOpen
+  | HTagName => wst cf = WTagName /\ tag0 c cf
+  | HSelfClosingStartTag => wst cf = WSelfClosingStartTag /\ tag0 c cf
   | HRawData KRcdata => wst cf = WRcdata
   | HRawData KRawtext => wst cf = WRawtext
   | HRawData KScriptData => wst cf = WScriptData
@@ -110,7 +119,7 @@ Notation RelH := (Rel SR).
 (* the states whose obligations are discharged below *)
 Definition covered (s : hstate) : bool :=
   match s with
-  | HData | HPlaintext | HRawData KRcdata | HRawData KRawtext | HRawData KScriptData
+  | HData | HPlaintext | HTagOpen | HEndTagOpen | HTagName | HSelfClosingStartTag | HRawData KRcdata | HRawData KRawtext | HRawData KScriptData
   | HRawData (KScriptDataEscaped KEscaped) | HRawData (KScriptDataEscaped KDoubleEscaped)
   | HRawLessThanSign KRcdata | HRawLessThanSign KRawtext | HRawLessThanSign KScriptData
   | HRawLessThanSign (KScriptDataEscaped KEscaped) | HRawLessThanSign (KScriptDataEscaped KDoubleEscaped)
@@ -133,6 +142,11 @@ Definition core_ok (s : hstate) (k0 : body hstate) : Prop :=
 (* ---------------------------------------------------------------- symbolic execution of one arm against the specification *)
 Hypothesis Hscript : e_script env = None.
 Hypothesis Hquiet : forall n, lookup_resp n (sk_resp sk) <> Some RespScript.
+Hypothesis Hnoenc : forall n, lookup_resp n (sk_resp sk) <> Some RespEncoding.
+(* the switches of the specification's scripted tree construction are the sink's answers *)
+Definition sw_of_resp (r : option resp) : option wstate :=
+  match r with Some RespPlaintext => Some WPlaintext | Some (RespRawData k) => wstate_of_kind k | _ => None end.
+Hypothesis Henv : forall n, lookup_sw n (e_switches env) = sw_of_resp (lookup_resp n (sk_resp sk)).
 
 Ltac rw_tests :=
   repeat match goal with
@@ -154,8 +168,8 @@ Ltac rw_hyps :=
 Ltac rdx :=
   lazy -[N.eqb N.leb N.add N.sub is_alpha is_upper is_lower bad_char str_eqb preprocess_from flat_i flat_s app lookup_resp sk_resp
          lookup_sw e_switches e_script w_alpha w_upper w_lower_alpha w_lower w_digit w_alnum wstr_eqb to_lower emitcs rev map char_tok];
-  cbn [N.eqb Pos.eqb N.leb N.compare Pos.compare Pos.compare_cont]; cbv beta iota.
-Ltac norm := rewrite ?w_alpha_eq, ?w_lower_eq, ?wstr_eqb_eq, ?Hscript, ?emitcs_closed; rw_hyps; rw_tests; rewrite ?if_same.
+  cbn [N.eqb Pos.eqb N.leb N.compare Pos.compare Pos.compare_cont rev]; cbv beta iota.
+Ltac norm := rewrite ?w_alpha_eq, ?w_lower_eq, ?wstr_eqb_eq, ?Hscript, ?Henv, ?emitcs_closed; rw_hyps; rw_tests; rewrite ?if_same.
 (* case analysis on the tests the interpreter's arm makes *)
 Ltac split_tests :=
   repeat match goal with
@@ -183,7 +197,7 @@ Ltac rel_leaf HF :=
   unfold Rel; split; [reflexivity|]; split; [reflexivity|]; split;
   [cbn [mout wout mkM flat_i flat_s fst tok_of_w atoms_of map char_tok]; rewrite ?flat_s_app, ?flat_s_rev_chars; cbn [flat_s tok_of_w app map char_tok];
    rw_hyps; rw_tests; cbn [N.eqb Pos.eqb]; cbv iota; rewrite <- ?app_assoc; try (rewrite HF); rewrite <- ?app_assoc; reflexivity
-  |unfold SR, clean_attr, raw_tag; cbn; rw_hyps; repeat split; try assumption; try reflexivity].
+  |unfold SR, clean_attr, raw_tag, tag0; cbn; rw_hyps; repeat split; try assumption; try reflexivity; try (left; reflexivity); try (right; reflexivity)].
 Ltac try_j HF j :=
   exists j; do 2 eexists; split; [unfold wsteps; repeat (rdx; norm); reflexivity|]; rel_leaf HF.
 Ltac leaf HF :=
@@ -196,12 +210,23 @@ Ltac core_start :=
   intros k0 Hk; injection Hk as <-; intros ae c il G ln q o k cf HS HF;
   destruct cf as [w ret tmp tag cm doc code last out];
   destruct G as [gbom gtmp gtk gtn gtself gtdup gta gan gav gcm gdn gdp gds gdq gpt gpd gls];
-  unfold SR, clean_attr, raw_tag in HS;
+  unfold SR, clean_attr, raw_tag, tag0 in HS;
   cbn [mkM mc st wst wlast wtmp wtag_ wout last_start attr_name attr_value temp_buf tag_name tag_kind tag_self tag_attrs tag_dup
        g_bom g_tmp g_tk g_tn g_tself g_tdup g_ta g_an g_av g_cm g_dn g_dp g_ds g_dq g_pt g_pd g_ls] in HS, HF;
-  decompose [and] HS; clear HS; subst;
+  decompose [and or] HS; clear HS; subst; cbn [is_end] in *;
   cbn [exec ceval_cond]; unfold memb, existsb;
   cbn [mkM mc last_start tag_kind tag_name temp_buf g_bom g_tmp g_tk g_tn g_tself g_tdup g_ta g_an g_av g_cm g_dn g_dp g_ds g_dq g_pt g_pd g_ls].
+Ltac kind_split k :=
+  destruct k as [| | |?k'| | | | | | |]; [| | |destruct k' as [| | |?k''| | | | | | |]| | | | | | |].
+Ltac lookup_split :=
+  try (match goal with |- context [do_term _ _ (EmitTag _) _] =>
+         match goal with |- context [mkgfr _ _ TEndTag _ ?ts _ _ _ _ _ _ _ _ _ _ _ _] => is_var ts; destruct ts end end);
+  try (match goal with |- context [do_term _ _ (EmitTag _) _] =>
+         match goal with |- context [mkgfr _ _ _ ?gtn _ _ _ _ _ _ _ _ _ _ _ _ _] =>
+           let Elk := fresh "Elk" in
+           destruct (lookup_resp gtn (sk_resp sk)) as [[|?rk| |]|] eqn:Elk;
+           [ | kind_split rk | exfalso; exact (Hquiet _ Elk) | exfalso; exact (Hnoenc _ Elk) | ]
+         end end).
 Ltac leafF := match goal with HF : flat_i _ = flat_s _ |- _ => leaf HF end.
 Ltac auto_core := core_start; split_tests; leafF.
 Ltac nul_core := core_start; (match goal with c : N |- _ => split_on c 0 end); split_tests; leafF.
@@ -215,6 +240,12 @@ Lemma core_Esc : forall k0, kbody (HRawData (KScriptDataEscaped KEscaped)) = Som
 Proof. nul_core. Qed.
 Lemma core_DEsc : forall k0, kbody (HRawData (KScriptDataEscaped KDoubleEscaped)) = Some k0 -> core_ok (HRawData (KScriptDataEscaped KDoubleEscaped)) k0.
 Proof. nul_core. Qed.
+
+Ltac tag_core := core_start; split_tests; lookup_split; leafF.
+Lemma core_TagOpen : forall k0, kbody HTagOpen = Some k0 -> core_ok HTagOpen k0. Proof. auto_core. Qed.
+Lemma core_EndTagOpen : forall k0, kbody HEndTagOpen = Some k0 -> core_ok HEndTagOpen k0. Proof. auto_core. Qed.
+Lemma core_TagName : forall k0, kbody HTagName = Some k0 -> core_ok HTagName k0. Proof. tag_core. Qed.
+Lemma core_SelfClosing : forall k0, kbody HSelfClosingStartTag = Some k0 -> core_ok HSelfClosingStartTag k0. Proof. tag_core. Qed.
 
 Lemma core_RawLt_Rcdata : forall k0, kbody (HRawLessThanSign KRcdata) = Some k0 -> core_ok (HRawLessThanSign KRcdata) k0.
 Proof. auto_core. Qed.
@@ -236,10 +267,6 @@ Proof. auto_core. Qed.
 Lemma core_RawETO_Esc : forall k0, kbody (HRawEndTagOpen (KScriptDataEscaped KEscaped)) = Some k0 -> core_ok (HRawEndTagOpen (KScriptDataEscaped KEscaped)) k0.
 Proof. auto_core. Qed.
 
-Ltac lookup_split :=
-  try (match goal with |- context [do_term _ _ (EmitTag _) (do_cmd _ _ _ _ _ _ (mkM _ _ _ _ (mkgfr _ _ _ ?gtn _ _ _ _ _ _ _ _ _ _ _ _ _) _ _ _ _))] =>
-         let Elk := fresh "Elk" in
-         destruct (lookup_resp gtn (sk_resp sk)) as [[| | |]|] eqn:Elk; try (exfalso; exact (Hquiet _ Elk)) end).
 Ltac etn_core :=
   core_start;
   match goal with |- context [match ?gls with Some l => true && str_eqb ?gtn l | None => false end] =>
@@ -283,21 +310,21 @@ Ltac eof_tac :=
   intros cu il G ln o k cf HS HF;
   destruct cf as [w ret tmp tag cm doc code last out];
   destruct G as [gbom gtmp gtk gtn gtself gtdup gta gan gav gcm gdn gdp gds gdq gpt gpd gls];
-  unfold SR, clean_attr, raw_tag in HS;
+  unfold SR, clean_attr, raw_tag, tag0 in HS;
   cbn [mkM mc st wst wlast wtmp wtag_ wout last_start attr_name attr_value temp_buf tag_name tag_kind tag_self tag_attrs tag_dup
        g_bom g_tmp g_tk g_tn g_tself g_tdup g_ta g_an g_av g_cm g_dn g_dp g_ds g_dq g_pt g_pd g_ls] in HS, HF;
-  decompose [and] HS; clear HS; subst;
-  eexists; exists 8%nat; eexists; split;
-  [intros f; cbn [Nat.add eof_loop]; repeat (rdx; norm); reflexivity|];
-  split; [cbn [wrun]; repeat (rdx; norm); reflexivity|];
-  cbn [mout wout mkM flat_i flat_s fst tok_of_w atoms_of map char_tok]; rewrite ?flat_s_app, ?flat_s_rev_chars; cbn [flat_s tok_of_w app map char_tok];
-  cbn [N.eqb Pos.eqb]; cbv iota; rewrite <- ?app_assoc; try (rewrite HF); rewrite <- ?app_assoc; reflexivity.
+  decompose [and or] HS; clear HS; subst; cbn [is_end] in *;
+  (eexists; exists 8%nat; eexists; split;
+   [intros f; cbn [Nat.add eof_loop]; repeat (rdx; norm); reflexivity|];
+   split; [cbn [wrun]; repeat (rdx; norm); reflexivity|];
+   cbn [mout wout mkM flat_i flat_s fst tok_of_w atoms_of map char_tok]; rewrite ?flat_s_app, ?flat_s_rev_chars; cbn [flat_s tok_of_w app map char_tok];
+   cbn [N.eqb Pos.eqb]; cbv iota; rewrite <- ?app_assoc; try (rewrite HF); rewrite <- ?app_assoc; reflexivity).
 
 Lemma core_all : forall s, covered s = true -> exists k0, kbody s = Some k0 /\ core_ok s k0.
 Proof.
   intros s Hs. destruct s; try discriminate Hs; try (destruct k; try discriminate Hs; try (destruct k; try discriminate Hs));
     (eexists; split; [reflexivity|]);
-    first [apply core_Data|apply core_Plaintext|apply core_Rcdata|apply core_Rawtext|apply core_Script|apply core_Esc|apply core_DEsc
+    first [apply core_TagOpen|apply core_EndTagOpen|apply core_TagName|apply core_SelfClosing|apply core_Data|apply core_Plaintext|apply core_Rcdata|apply core_Rawtext|apply core_Script|apply core_Esc|apply core_DEsc
           |apply core_RawLt_Rcdata|apply core_RawLt_Rawtext|apply core_RawLt_Script|apply core_RawLt_Esc|apply core_RawLt_DEsc
           |apply core_RawETO_Rcdata|apply core_RawETO_Rawtext|apply core_RawETO_Script|apply core_RawETO_Esc
           |apply core_RawETN_Rcdata|apply core_RawETN_Rawtext|apply core_RawETN_Script|apply core_RawETN_Esc
@@ -361,7 +388,7 @@ End R.
 
 (* ---------------------------------------------------------------- the refinement theorem, as far as the obligations are discharged *)
 Definition covered_states : list hstate :=
-  [HData; HPlaintext; HRawData KRcdata; HRawData KRawtext; HRawData KScriptData; HRawData (KScriptDataEscaped KEscaped);
+  [HData; HPlaintext; HTagOpen; HEndTagOpen; HTagName; HSelfClosingStartTag; HRawData KRcdata; HRawData KRawtext; HRawData KScriptData; HRawData (KScriptDataEscaped KEscaped);
    HRawData (KScriptDataEscaped KDoubleEscaped); HRawLessThanSign KRcdata; HRawLessThanSign KRawtext; HRawLessThanSign KScriptData;
    HRawLessThanSign (KScriptDataEscaped KEscaped); HRawLessThanSign (KScriptDataEscaped KDoubleEscaped);
    HRawEndTagOpen KRcdata; HRawEndTagOpen KRawtext; HRawEndTagOpen KScriptData; HRawEndTagOpen (KScriptDataEscaped KEscaped);
@@ -369,7 +396,7 @@ Definition covered_states : list hstate :=
    HScriptDataEscapeStart KEscaped; HScriptDataEscapeStartDash; HScriptDataEscapedDash KEscaped; HScriptDataEscapedDashDash KEscaped;
    HScriptDataEscapeStart KDoubleEscaped; HScriptDataEscapedDash KDoubleEscaped; HScriptDataEscapedDashDash KDoubleEscaped;
    HScriptDataDoubleEscapeEnd].
-Lemma covered_states_ok : forallb covered covered_states = true /\ length covered_states = 28%nat.
+Lemma covered_states_ok : forallb covered covered_states = true /\ length covered_states = 32%nat.
 Proof. split; reflexivity. Qed.
 
 (* For every input text, start state among Data / PLAINTEXT / RCDATA / RAWTEXT / script data (escaped, double escaped), last
@@ -382,7 +409,9 @@ Proof. split; reflexivity. Qed.
    tag starts), comments, DOCTYPE, CDATA sections, character references - make the visiting hypothesis fail; no Script /
    encoding suspension (one feed call). *)
 Theorem html_refines_whatwg_partial :
-  forall simd ent c1 sk env, e_script env = None -> (forall n, lookup_resp n (sk_resp sk) <> Some RespScript) ->
+  forall simd ent c1 sk env, e_script env = None ->
+  (forall n, lookup_resp n (sk_resp sk) <> Some RespScript) -> (forall n, lookup_resp n (sk_resp sk) <> Some RespEncoding) ->
+  (forall n, lookup_sw n (e_switches env) = sw_of_resp (lookup_resp n (sk_resp sk))) ->
   forall s0 w last text fuel m2 m3,
   covered s0 = true -> wstate_of_start s0 = Some w ->
   let m1 := RecordSet.set mq (fun q => q ++ text) (mkmach (init_cfg s0 last false) ([] : list N) [] 0) in
@@ -392,7 +421,7 @@ Theorem html_refines_whatwg_partial :
   drive_flat html_flavour true html_table simd ent c1 sk fuel [] [text] (mkmach (init_cfg s0 last false) [] [] 0) [] = (m3, [SSuspend; SSuspend]) /\
   exists fs cfF, wrun fs env (winit w last) (preprocess text) = Some cfF /\ flat_i (mout m3) = flat_s (wout cfF).
 Proof.
-  intros [[sg ss] sn] ent c1 sk env Hscript Hquiet s0 w last text fuel m2 m3 Hcov Hw m1 Hvis Hfeed Hend.
+  intros [[sg ss] sn] ent c1 sk env Hscript Hquiet Hnoenc Henv s0 w last text fuel m2 m3 Hcov Hw m1 Hvis Hfeed Hend.
   split; [exact (drive_one html_flavour html_table (sg, ss, sn) ent c1 sk fuel [] text _ m2 m3 SSuspend Hfeed Hend)|].
   eapply (feed_end_refine html_table (sg, ss, sn) ent c1 sk env SR okH) with (m1 := m1) (m2 := m2) (fuel := fuel);
     try exact Hfeed; try exact Hend; try exact Hvis; try reflexivity.
